@@ -404,6 +404,50 @@ def r10(ctx, facts):
     r.instance("both-halves-get-the-length", pure >= 2, "expected `h1 ^= total_len` and `h2 ^= total_len` in finish(), found %d such xors" % pure, b.span)
 
 
+PARTITIONER_CLASSES = {
+    # what the servers report in system tables / PREPARED metadata
+    "org.apache.cassandra.dht.Murmur3Partitioner": "Murmur3",
+    "com.scylladb.dht.CDCPartitioner": "CDC",
+}
+
+
+def r11(ctx, facts):
+    r = ctx.rule("R11", "the partitioner class names the servers report are recognised: Murmur3Partitioner -> Murmur3, ScyllaDB's com.scylladb.dht.CDCPartitioner -> CDC", floor=2)
+    from ..util import dj_of
+    b = facts.one(r"^scylla::routing::partitioner::PartitionerName::from_str$")
+    dj = dj_of(b, facts)
+    tests = []     # (call, method, literal)
+    for bb, c in b.calls():
+        if bb not in b.live_blocks:
+            continue
+        nm = (c.decl or c.name or "").split("::")[-1]
+        if nm in ("ends_with", "starts_with", "contains", "eq", "eq_ignore_ascii_case") and len(c.args) == 2:
+            from .c16 import resolve_literal
+            lit = None
+            for a in c.args:
+                lit = lit or resolve_literal(facts, b, a)
+            if lit is not None:
+                tests.append((c, nm, lit))
+    if not tests:
+        raise AnchorLost("PartitionerName::from_str: no string test found")
+
+    def holds(nm, lit, name):
+        return {"ends_with": name.endswith(lit), "starts_with": name.startswith(lit), "contains": lit in name, "eq": name == lit, "eq_ignore_ascii_case": name.lower() == lit.lower()}[nm]
+    # which variant is produced where: Some(PartitionerName::V) aggregates, by the test that is known true there
+    for cls, want in PARTITIONER_CLASSES.items():
+        got = set()
+        for bb in sorted(b.live_blocks):
+            for j, st in enumerate(b.stmts(bb)):
+                if st[0] == "A" and st[2][0] == "agg" and st[2][1][0] == "adt" and st[2][1][1].endswith("PartitionerName"):
+                    for stt in dj.states_before_stmt(bb, j):
+                        # the state is consistent with `cls` if every decided test has the outcome it has on `cls`
+                        if all(stt.get(("call", c.bb)) is None or in_set(stt.get(("call", c.bb)), {1 if holds(nm, lit, cls) else 0}) for c, nm, lit in tests) \
+                                and any(stt.get(("call", c.bb)) is not None for c, nm, lit in tests):
+                            got.add(st[2][1][2])
+        r.instance("recognised:" + cls.split(".")[-1], got == {want},
+                   "for the class name %r from_str yields %s; it must yield %s (a CDC log table hashed with Murmur3 routes every request to a non-replica)" % (cls, sorted(got) or "None", want), b.span)
+
+
 # the only place a statement handle may start with the default partitioner: fresh from PREPARE (the session then sets it from metadata)
 FRESH_HANDLE = ("PreparedStatement::new",)
 
@@ -460,7 +504,7 @@ def path_last_name(place):
 
 def check(ctx):
     facts = inline_view(ctx.facts("default"))
-    for fn in (r1, r2, r3, r4, r5, r6, r7, r8, r9, r10):
+    for fn in (r1, r2, r3, r4, r5, r6, r7, r8, r9, r10, r11):
         try:
             fn(ctx, facts)
         except AnchorLost as ex:
